@@ -224,7 +224,11 @@ impl<F: Fam> Ctx<F> {
                     2,
                 ),
             }
+            // (maps above 20 000 elements only get the plain traversal: these extra passes would
+            // multiply the cost of the few very large cases of the thorough tier)
+            let small = n <= 20_000;
             match kind {
+                _ if !small => {}
                 IterKind::Iter | IterKind::RefIntoIter => {
                     let mut it = m.iter();
                     for _ in 0..skip {
@@ -283,7 +287,7 @@ impl<F: Fam> Ctx<F> {
                     });
                 }
             }
-            if out.len() == n {
+            if out.len() == n && small {
                 match kind {
                     IterKind::Iter => beyond_next(|| m.iter(), |(k, v): (&F::K, &F::V)| (k.k(), k.id(), v.v(), v.id()), &out, skip, &mut errs, "iter()"),
                     IterKind::RefIntoIter => beyond_next(|| (&*m).into_iter(), |(k, v): (&F::K, &F::V)| (k.k(), k.id(), v.v(), v.id()), &out, skip, &mut errs, "(&map).into_iter()"),
